@@ -136,6 +136,20 @@ class Bound(Value):
 
 
 @dataclass(frozen=True)
+class Lam(Value):
+    node: Any = field(compare=False, hash=False)
+    env: Any = field(default=None, compare=False, hash=False)
+    uid: int = 0
+    kind = "func"
+
+    def key(self):
+        return ("L", self.uid)
+
+    def __repr__(self):
+        return f"lambda#{self.uid}"
+
+
+@dataclass(frozen=True)
 class Cls(Value):
     qualname: str
     kind = "class"
